@@ -306,3 +306,58 @@ package shaping
 //@   ensures [at-grapheme-boundary] implies(ok, option.breakAtRune == b.graphemeSegmenter.attributeIterator.pos-1 && 0 <= option.breakAtRune && !option.required &&
 //@     | b.graphemeSegmenter.attributeIterator.src.attributes[option.breakAtRune+1]&b.graphemeSegmenter.attributeIterator.flag != 0)
 //@   modifies b.graphemeSegmenter.attributeIterator.pos; b.graphemeSegmenter.attributeIterator.lastBreak
+//
+// ---------------------------------------------------------------------------------------------
+// Property C04: widths. ceil26_6 is fixed.Int26_6.Ceil as documented ("the least integer value greater than or equal to x").
+//@ spec ceil26_6(x fixed.Int26_6) int = int((x + 0x3f) >> 6)
+//@ trusted RunIterator.Peek
+//@   params it
+//@   modifies nothing
+//@ trusted RunIterator.Save
+//@   params it
+//@   modifies nothing
+//@ trusted RunIterator.Restore
+//@   params it
+//@   modifies nothing
+//@ trusted LineWrapper.wrapNextLine
+//@   modifies unspecified
+//@ trusted LineWrapper.postProcessLine
+//@   modifies unspecified
+//
+// WrapNextLine: the per-line limits handed to the line builder: the line may use maxWidth, and when this is the last
+// permitted line it must leave room for the truncator: maxWidth - ceil(truncator advance).
+//@ func LineWrapper.WrapNextLine C04
+//@   mode bv
+//@   assert_at call wrapNextLine#1 : [limits] config.maxWidth == maxWidth && config.truncating == (l.config.TruncateAfterLines == 1) && config.truncatedMaxWidth == maxWidth - ceil26_6(l.config.Truncator.Advance)
+//@   modifies unspecified
+//
+// advanceSpaceAware, from its documentation: the advance without the trailing (in paragraph direction) glyph's advance
+// when that glyph is white space (zero ink extent on the axis), else without its end letter spacing; unchanged when
+// the run's direction differs from the paragraph's or the run is empty.
+//@ spec lastGlyphIdx(o Output) int = ite(bool(o.Direction.Progression()), 0, len(o.Glyphs)-1)
+//@ spec trailingAdj(o Output) fixed.Int26_6 = ite(o.Direction.IsVertical(), ite(o.Glyphs[lastGlyphIdx(o)].Height == 0, o.Glyphs[lastGlyphIdx(o)].YAdvance, o.Glyphs[lastGlyphIdx(o)].endLetterSpacing), ite(o.Glyphs[lastGlyphIdx(o)].Width == 0, o.Glyphs[lastGlyphIdx(o)].XAdvance, o.Glyphs[lastGlyphIdx(o)].endLetterSpacing))
+//@ spec spaceAware(o Output, p di.Direction) fixed.Int26_6 = ite(len(o.Glyphs) == 0 || p != o.Direction, o.Advance, o.Advance - trailingAdj(o))
+//@ func Output.advanceSpaceAware C04
+//@   mode bv
+//@   ensures [as-documented] result == spaceAware(*o, paragraphDir)
+//@   modifies nothing
+//
+//@ trusted LineWrapper.fillUntil
+//@   modifies l.scratch.alt; l.scratch.altAdvance; all(Output)
+//@ trusted mapRunesToClusterIndices3
+//@   modifies buf[0:cap(buf)]
+//
+// processBreakOption: the fit classification. w = ceil(space-aware advance of the candidate run in PARAGRAPH direction
+// + advance of the runs already on the candidate line).
+//@ spec lineWidth(l *LineWrapper, cand Output) int = ceil26_6(spaceAware(cand, l.config.Direction) + l.scratch.altAdvance)
+//@ func LineWrapper.processBreakOption C04 C03
+//@   mode bv
+//@   requires l.breaker != nil
+//@   ensures [stale-option-invalid] implies(option.breakAtRune < old(l.lineStartRune), result0 == breakInvalid)
+//@   ensures [fits] implies(result0 == fits, lineWidth(l, result1) <= config.maxWidth && !(config.truncating && lineWidth(l, result1) > config.truncatedMaxWidth))
+//@   ensures [cannot-fit] implies(result0 == cannotFit, lineWidth(l, result1) > config.maxWidth && len(l.scratch.best) == 0)
+//@   ensures [new-line-before] implies(result0 == newLineBeforeBreak, lineWidth(l, result1) > config.maxWidth && len(l.scratch.best) > 0)
+//@   ensures [truncation] implies(result0 == endLine || result0 == truncated, config.truncating && lineWidth(l, result1) <= config.maxWidth && lineWidth(l, result1) > config.truncatedMaxWidth)
+//@   ensures [end-line-only-at-text-end] implies(result0 == endLine, result1.Runes.Count+result1.Runes.Offset == l.breaker.totalRunes && !l.config.TextContinues)
+//@   ensures [truncated-otherwise] implies(result0 == truncated, !(result1.Runes.Count+result1.Runes.Offset == l.breaker.totalRunes && !l.config.TextContinues))
+//@   modifies unspecified
